@@ -233,6 +233,8 @@ class ByteInterval(Node):
 
     @initialized_size.setter
     def initialized_size(self, value: int) -> None:
+        if value > self.size:
+            raise ValueError("initialized_size must be <= size!")
         if value > len(self.contents):
             self.contents += b"\0" * (value - len(self.contents))
         elif value < len(self.contents):
